@@ -618,7 +618,14 @@ class SymArr:
         if isinstance(step, Sym):
             lv = step.literal()
             if lv is None:
-                raise OutOfSubset("symbolic slice step")
+                if not cur().entails(step.t > 0):
+                    raise OutOfSubset("symbolic slice step not provably positive")
+                lo0 = 0 if sl.start is None else None
+                if lo0 is None or sl.stop is not None:
+                    raise OutOfSubset("symbolic slice step with explicit bounds")
+                nn = S(n)
+                ln = ite(nn.t <= 0, 0, (nn + (step - 1)) // step)
+                return 0, n, step.t, ln
             step = lv
         if step is None:
             step = 1
@@ -701,7 +708,7 @@ class SymArr:
                     pos += 1
                 elif oa[0] == "src":
                     _, lo, step = plan[oa[1]]
-                    srcidx[oa[1]] = lift(lo) + idx[pos] * step if step != 1 else lift(lo) + idx[pos]
+                    srcidx[oa[1]] = lift(lo) + idx[pos] * step if (is_z3(step) or step != 1) else lift(lo) + idx[pos]
                     pos += 1
                 else:
                     arr = plan[oa[1]][1]
